@@ -352,6 +352,23 @@ func TestVerif_C01(t *testing.T) {
 			return "", "index-generation-failed: " + err.Error(), cs
 		}
 		class, detail := c01CheckEpoch(e, access)
+		if class == "" && access == "file" {
+			// differential observation (not demanded by the statement): the repository's own verification pass
+			// (`index all --verify`, `verify-index all`) must agree that these indexes are right
+			verr := func() (err error) {
+				defer func() {
+					if r := recover(); r != nil {
+						err = fmt.Errorf("panic: %v", r)
+					}
+				}()
+				return verifyAllIndexes(context.Background(), e.CarPath, e.Paths, 0)
+			}()
+			R.Add("verify_pass_runs", 1)
+			if verr != nil {
+				R.Add("verify_pass_rejects_indexes_whose_every_lookup_is_right", 1)
+				R.Note("%v: every lookup is right, but the repository's verification pass fails: %v", cs.Devs, verr)
+			}
+		}
 		return class, detail, cs
 	}
 	if rp := vkit.ReplayRequest(); rp != nil {
